@@ -26,7 +26,7 @@ RULE = (
 )
 ASSUMPTIONS = ["the low-level functions themselves are the subject of C01-C12; here only the wiring is compared, exactly"]
 TOLERANCES = {"fields and grids": "array_equal", "tower x,y vs independent formula": "1e-6 m"}
-BUDGET = {"quick": dict(examples=400, shards=1), "thorough": dict(examples=1500, shards=16)}
+BUDGET = {"quick": dict(examples=800, shards=1), "thorough": dict(examples=6000, shards=16)}
 
 
 def warmup():
